@@ -5,7 +5,7 @@ import sys
 
 from . import core
 
-GENERATORS = ["gen_timespan", "gen_universe", "gen_grammar", "gen_inrange", "gen_predicate", "gen_postprocessing", "gen_cache", "gen_decertify", "gen_chain", "gen_toggle", "gen_exists", "gen_config", "gen_dstxn", "gen_trash", "gen_standardize", "gen_template", "gen_sync", "gen_export"]
+GENERATORS = ["gen_timespan", "gen_universe", "gen_grammar", "gen_inrange", "gen_predicate", "gen_postprocessing", "gen_cache", "gen_decertify", "gen_chain", "gen_toggle", "gen_exists", "gen_config", "gen_dstxn", "gen_trash", "gen_standardize", "gen_template", "gen_sync", "gen_export", "gen_summary"]
 
 
 def main():
